@@ -110,14 +110,18 @@ Proof.
   - injection H as <-. simpl. repeat split.
 Qed.
 
-(* GetAttributes (server side) right after Register *)
-Lemma attrs_after_register_l : forall v o n s l st st' u v',
-  store_ok st -> enums_ok s -> len_attr_consistent s l -> names_untyped l -> mask_attr_defined l ->
-  srv_register v o n s l st = Ok (st', u) ->
-  srv_attrs v' st' u = Ok (expected_attrs v' u n ST_PRE_ACTIVE s l).
+(* the row of a registered object with its state column set to z *)
+Definition with_state (z : Z) (r : prow) : prow :=
+  mkP (p_class r) (p_value r) (p_alg r) (p_len r) (p_fmt r) (p_kc r) (p_parts r) (p_ident r) (p_thresh r) (p_spm r)
+      (p_prime r) (p_sub r) z (p_masks r) (p_names r) (p_groups r) (p_asi r) (p_sensitive r) (p_policy r) (p_initial r) (p_owner r).
+
+(* GetAttributes computed from the stored row of a registered object, whatever (valid) state the row carries *)
+Lemma attrs_row_gen : forall v o n s l a u v' z,
+  enums_ok s -> len_attr_consistent s l -> names_untyped l -> mask_attr_defined l ->
+  register_pie v o n s (wire_attrs v l) = Ok a -> sql_enum_in z = Some z ->
+  pie_attrs v' u (sql_in (with_state z (sql_out a))) = expected_attrs v' u n z s l.
 Proof.
-  intros v o n s l st st' u v' F He Hl Hn Hm H. unfold srv_register in H. inv_bind H. injection H as <- <-.
-  unfold srv_attrs; simpl. rewrite find_row_app_fresh by exact F. f_equal.
+  intros v o n s l a u v' z He Hl Hn Hm E Hz.
   assert (Hl' : len_attr_consistent s (wire_attrs v l)) by (unfold len_attr_consistent; rewrite sel_len_wire; exact Hl).
   destruct (register_pie_core _ _ _ _ _ _ E He Hl') as [p [C S]].
   destruct (core_to_pie_shape _ _ C He) as [Sh En].
@@ -134,13 +138,11 @@ Proof.
   simpl in R1, R3, R4, R12. rewrite A1 in R1.
   unfold pie_attrs, expected_attrs.
   (* the class, hence every applicability test, agrees *)
-  assert (Cl : p_class (sql_in (sql_out {| p_class := p_class a0; p_value := p_value a0; p_alg := p_alg a0; p_len := p_len a0; p_fmt := p_fmt a0;
-     p_kc := p_kc a0; p_parts := p_parts a0; p_ident := p_ident a0; p_thresh := p_thresh a0; p_spm := p_spm a0; p_prime := p_prime a0;
-     p_sub := p_sub a0; p_state := p_state a0; p_masks := p_masks a0; p_names := p_names a0; p_groups := p_groups a0; p_asi := p_asi a0;
-     p_sensitive := p_sensitive a0; p_policy := p_policy a0; p_initial := n; p_owner := Some o |})) = secret_class s) by (simpl; exact A1).
+  match goal with |- context [pie_attrs] => idtac | _ => idtac end.
+  match goal with |- context [a_applicable A_UID (p_class ?R)] => assert (Cl : p_class R = secret_class s) by (simpl; exact A1) end.
   rewrite Cl. simpl p_names. simpl p_groups. simpl p_asi. simpl p_sensitive. simpl p_policy. simpl p_initial. simpl p_masks. simpl p_state.
   simpl p_alg. simpl p_len. simpl p_sub. rewrite A1.
-  rewrite names_roundtrip, A2, A3, A4, A5, A6, A7, A8, I8.
+  rewrite names_roundtrip, A2, A3, A4, A5, A6, A7. rewrite ?A8, ?I8.
   rewrite (indexed_names l 0 Hn).
   (* per class *)
   rewrite A1 in *. rewrite I1 in *.
@@ -149,20 +151,20 @@ Proof.
     assert (Cr : is_crypto c = true) by (destruct c; try discriminate K; reflexivity).
     rewrite K in *. rewrite ?Cr. destruct Alg as [Al Le]. rewrite R3, R4, Al, Le.
     rewrite (mask_value l Hm).
-    replace (sql_enum_in (sql_enum_out (Some ST_PRE_ACTIVE))) with (Some ST_PRE_ACTIVE) by reflexivity.
+    rewrite ?Hz.
     destruct (sel_policy l); reflexivity.
   - change (is_key CSplit) with true in *. change (is_crypto CSplit) with true in *. cbv iota in R3, R4, Alg |- *.
     destruct Alg as [Al Le]. rewrite R3, R4, Al, Le.
     rewrite (mask_value l Hm).
-    replace (sql_enum_in (sql_enum_out (Some ST_PRE_ACTIVE))) with (Some ST_PRE_ACTIVE) by reflexivity.
+    rewrite ?Hz.
     destruct (sel_policy l); reflexivity.
   - change (is_key CCert) with false in *. change (is_crypto CCert) with true in *. cbv iota in R12 |- *.
     rewrite R12, Sub. rewrite (mask_value l Hm).
-    replace (sql_enum_in (sql_enum_out (Some ST_PRE_ACTIVE))) with (Some ST_PRE_ACTIVE) by reflexivity.
+    rewrite ?Hz.
     destruct (sel_policy l); reflexivity.
   - change (is_key CSecret) with false in *. change (is_crypto CSecret) with true in *. cbv iota.
     rewrite (mask_value l Hm).
-    replace (sql_enum_in (sql_enum_out (Some ST_PRE_ACTIVE))) with (Some ST_PRE_ACTIVE) by reflexivity.
+    rewrite ?Hz.
     replace (a_applicable A_CTYPE CSecret) with false by reflexivity. rewrite !andb_false_r.
     destruct (sel_policy l); reflexivity.
   - change (is_key COpaque) with false in *. change (is_crypto COpaque) with false in *. cbv iota.
@@ -171,4 +173,106 @@ Proof.
     replace (a_applicable A_STATE COpaque) with false by reflexivity.
     rewrite !andb_false_r.
     destruct (sel_policy l); reflexivity.
+Qed.
+
+(* ------------------------------------------------------------------ the registered row and its state *)
+Lemma reg_facts : forall v o n s l a, register_pie v o n s l = Ok a ->
+  p_class a = secret_class s /\ p_state a = (if is_crypto (secret_class s) then Some ST_PRE_ACTIVE else None).
+Proof.
+  intros v o n s l a H. unfold register_pie in H. inv_bind H. inv_bind H. injection H as <-. simpl.
+  pose proof (core_to_pie_init _ _ E) as Init.
+  destruct (apply_attrs_fields _ _ _ _ _ E0 Init) as (A1 & _ & _ & _ & _ & _ & _ & A8).
+  destruct Init as (_ & _ & _ & _ & _ & _ & _ & I8). split; [exact A1|]. rewrite A8. exact I8.
+Qed.
+
+Lemma sql_in_with_state_noncrypto : forall z r, is_crypto (p_class r) = false -> sql_in (with_state z r) = sql_in r.
+Proof. intros z r H. destruct r. simpl in H. unfold with_state, sql_in. simpl. rewrite H. reflexivity. Qed.
+
+Lemma with_state_same : forall r, with_state (p_state r) r = r.
+Proof. intro r. destruct r. reflexivity. Qed.
+
+Lemma attrs_of_registered_row : forall v o n s l a u v',
+  enums_ok s -> len_attr_consistent s l -> names_untyped l -> mask_attr_defined l ->
+  register_pie v o n s (wire_attrs v l) = Ok a ->
+  pie_attrs v' u (sql_in (sql_out a)) = expected_attrs v' u n ST_PRE_ACTIVE s l.
+Proof.
+  intros v o n s l a u v' He Hl Hn Hm E.
+  destruct (reg_facts _ _ _ _ _ _ E) as [C S].
+  rewrite <- (attrs_row_gen v o n s l a u v' ST_PRE_ACTIVE He Hl Hn Hm E eq_refl).
+  destruct (is_crypto (secret_class s)) eqn:Cr.
+  - rewrite <- (with_state_same (sql_out a)) at 1. simpl p_state. rewrite S. reflexivity.
+  - rewrite sql_in_with_state_noncrypto; [reflexivity|]. simpl. rewrite C. exact Cr.
+Qed.
+
+(* GetAttributes right after Register *)
+Lemma attrs_after_register_l : forall v o n s l st st' u v',
+  store_ok st -> enums_ok s -> len_attr_consistent s l -> names_untyped l -> mask_attr_defined l ->
+  srv_register v o n s l st = Ok (st', u) ->
+  srv_attrs v' st' u = Ok (expected_attrs v' u n ST_PRE_ACTIVE s l).
+Proof.
+  intros v o n s l st st' u v' F He Hl Hn Hm H. unfold srv_register in H. inv_bind H. injection H as <- <-.
+  unfold srv_attrs; simpl. rewrite find_row_app_fresh by exact F. f_equal.
+  eapply attrs_of_registered_row; eassumption.
+Qed.
+
+(* ------------------------------------------------------------------ any later point of any history *)
+Definition acted (u : Z) (h : list hop) : bool :=
+  existsb (fun x => match x with HActivate u' => u' =? u | _ => false end) h.
+Definition rowb (r0 : prow) (b : bool) : prow := if b then activate_row r0 else r0.
+
+Lemma activate_row_idem : forall r, activate_row (activate_row r) = activate_row r.
+Proof.
+  intro r. unfold activate_row. destruct (is_crypto (p_class r) && (p_state r =? ST_PRE_ACTIVE)) eqn:E; simpl.
+  - rewrite andb_false_r. reflexivity.
+  - rewrite E. reflexivity.
+Qed.
+
+Lemma run_row : forall u r0 h st b,
+  Forall (not_destroying u) h ->
+  find_row u (s_rows st) = Some (rowb r0 b) ->
+  find_row u (s_rows (run st h)) = Some (rowb r0 (b || acted u h)).
+Proof.
+  intros u r0. induction h as [|x h IH]; intros st b Nd Fr; simpl.
+  - rewrite orb_false_r. exact Fr.
+  - inversion Nd; subst. destruct x as [v o n s' l| |u'|u'| |]; simpl.
+    + rewrite (IH _ b H2); [reflexivity|].
+      destruct (srv_register v o n s' l st) as [[st' u']|] eqn:R; [|exact Fr].
+      unfold srv_register in R. inv_bind R. injection R as <- <-. simpl. apply find_row_app_old. exact Fr.
+    + rewrite (IH _ b H2); [reflexivity|exact Fr].
+    + destruct (u' =? u) eqn:Eu.
+      * apply Z.eqb_eq in Eu. subst u'. rewrite (IH _ true H2).
+        -- rewrite orb_true_r. reflexivity.
+        -- simpl. rewrite find_update_row. rewrite Fr. rewrite Z.eqb_refl.
+           change (Some (activate_row (rowb r0 b)) = Some (rowb r0 true)). f_equal.
+           destruct b; simpl; [apply activate_row_idem|reflexivity].
+      * rewrite (IH _ b H2); [reflexivity|].
+        simpl. rewrite find_update_row. rewrite Fr. rewrite Z.eqb_sym in Eu. rewrite Eu. reflexivity.
+    + rewrite (IH _ b H2); [reflexivity|]. simpl. rewrite find_remove_row by (simpl in H1; congruence). exact Fr.
+    + rewrite (IH _ b H2); [reflexivity|exact Fr].
+    + rewrite (IH _ b H2); [reflexivity|exact Fr].
+Qed.
+
+Definition state_after (u : Z) (s : secret) (h : list hop) : Z :=
+  if acted u h && is_crypto (secret_class s) then ST_ACTIVE else ST_PRE_ACTIVE.
+
+Lemma attrs_at_any_later_point_l : forall v o n s l st st' u h v',
+  store_ok st -> enums_ok s -> len_attr_consistent s l -> names_untyped l -> mask_attr_defined l ->
+  srv_register v o n s l st = Ok (st', u) -> Forall (not_destroying u) h ->
+  srv_attrs v' (run st' h) u = Ok (expected_attrs v' u n (state_after u s h) s l).
+Proof.
+  intros v o n s l st st' u h v' F He Hl Hn Hm H Nd. unfold srv_register in H. inv_bind H. injection H as <- <-.
+  destruct (reg_facts _ _ _ _ _ _ E) as [C S].
+  match goal with |- srv_attrs _ (run ?ST _) _ = _ =>
+    assert (Fr : find_row (s_next st) (s_rows ST) = Some (rowb (sql_out a) false))
+      by (simpl; apply find_row_app_fresh; exact F);
+    pose proof (run_row _ _ h ST false Nd Fr) as Fh end.
+  unfold srv_attrs. rewrite Fh. f_equal. simpl orb. unfold state_after.
+  destruct (acted (s_next st) h); simpl.
+  - unfold activate_row. simpl p_class. rewrite C. simpl p_state. rewrite S.
+    destruct (is_crypto (secret_class s)) eqn:Cr; simpl.
+    + rewrite <- C.
+      change (pie_attrs v' (s_next st) (sql_in (with_state ST_ACTIVE (sql_out a))) = expected_attrs v' (s_next st) n ST_ACTIVE s l).
+      apply (attrs_row_gen v o n s l a (s_next st) v' ST_ACTIVE He Hl Hn Hm E eq_refl).
+    + eapply attrs_of_registered_row; eassumption.
+  - eapply attrs_of_registered_row; eassumption.
 Qed.
